@@ -184,31 +184,30 @@ theorem doWrite_live (w : RW) (p : List Nat) (hl : Live w) :
 
 /-! ### the framing invariant -/
 
-def HdrOnly (l : List WriteRec) : Prop := ∀ x ∈ l, ∃ f, x = .hdr f
-
-/-- `acc` = the bytes of the accepted `Write` calls so far: still in the small-response buffer, or on the
+/-- `pre` = the records on the stream before the final header (interim 1xx responses);
+    `acc` = the bytes of the accepted `Write` calls so far: still in the small-response buffer, or on the
     stream as DATA frames behind the HEADERS record -/
-def Fr (w : RW) (acc : List Nat) : Prop :=
-  (w.headerWritten = false ∧ w.small = acc ∧ HdrOnly w.str.writes) ∨
-  (w.headerWritten = true ∧ w.small = [] ∧ ∃ (pre : List WriteRec) (hf : List (String × String)) (raws cs : List (List Nat)), HdrOnly pre ∧
+def Fr (pre : List WriteRec) (w : RW) (acc : List Nat) : Prop :=
+  (w.headerWritten = false ∧ w.small = acc ∧ w.str.writes = pre) ∨
+  (w.headerWritten = true ∧ w.small = [] ∧ ∃ (hf : List (String × String)) (raws cs : List (List Nat)),
     w.str.writes = pre ++ .hdr hf :: raws.map .raw ∧ raws.flatten = encFrames (cs.map dataFrameOf) ∧
     cs.flatten = acc ∧ ∀ c ∈ cs, c.length < 2 ^ 62)
 
 /-- `doWrite p` turns `Fr w acc` into `Fr w' (acc ++ p)` (written form) -/
-theorem doWrite_fr (w : RW) (p acc : List Nat) (hl : Live w) (hf : Fr w acc) (hlen : (acc ++ p).length < 2 ^ 62) :
-    (w.doWrite p).2.2 = none ∧ Live (w.doWrite p).1 ∧ Fr (w.doWrite p).1 (acc ++ p) ∧
+theorem doWrite_fr (pre : List WriteRec) (w : RW) (p acc : List Nat) (hl : Live w) (hf : Fr pre w acc) (hlen : (acc ++ p).length < 2 ^ 62) :
+    (w.doWrite p).2.2 = none ∧ Live (w.doWrite p).1 ∧ Fr pre (w.doWrite p).1 (acc ++ p) ∧
       (w.doWrite p).1.numWritten = w.numWritten ∧ (w.doWrite p).1.contentLen = w.contentLen ∧
       (w.doWrite p).1.headerWritten = true := by
   obtain ⟨w', app, hw', hnone, hl', hhw, hsm, hnw, hcl, hwr, happ⟩ := doWrite_live w p hl
   rw [hw']
   refine ⟨hnone, hl', ?_, hnw, hcl, hhw⟩
   refine Or.inr ⟨hhw, hsm, ?_⟩
-  rcases hf with ⟨f1, f2, f3⟩ | ⟨f1, f2, pre, hf0, raws, cs, g1, g2, g3, g4, g5⟩
+  rcases hf with ⟨f1, f2, f3⟩ | ⟨f1, f2, hf0, raws, cs, g2, g3, g4, g5⟩
   · -- nothing written yet: HEADERS now, then one DATA frame with the buffered bytes and `p`
     rcases happ with ⟨h1, _⟩ | ⟨_, F, rfl⟩
     · rw [f1] at h1; cases h1
-    · refine ⟨w.str.writes, F, bodyRecs w.small p, (if w.small ++ p = [] then [] else [w.small ++ p]), f3, ?_, ?_, ?_, ?_⟩
-      · rw [hwr]; simp
+    · refine ⟨F, bodyRecs w.small p, (if w.small ++ p = [] then [] else [w.small ++ p]), ?_, ?_, ?_, ?_⟩
+      · rw [hwr, f3]; simp
       · rw [f2]; exact bodyRecs_flat acc p hlen
       · rw [f2]; split
         · next h => simp [h]
@@ -219,7 +218,7 @@ theorem doWrite_fr (w : RW) (p acc : List Nat) (hl : Live w) (hf : Fr w acc) (hl
         · simp at hc
         · simp only [List.mem_singleton] at hc; subst hc; exact hlen
   · rcases happ with ⟨_, rfl⟩ | ⟨h1, _⟩
-    · refine ⟨pre, hf0, raws ++ bodyRecs w.small p, cs ++ (if w.small ++ p = [] then [] else [w.small ++ p]), g1, ?_, ?_, ?_, ?_⟩
+    · refine ⟨hf0, raws ++ bodyRecs w.small p, cs ++ (if w.small ++ p = [] then [] else [w.small ++ p]), ?_, ?_, ?_, ?_⟩
       · rw [hwr, g2]; simp
       · rw [List.flatten_append, g3, List.map_append, encFrames_append, bodyRecs_flat]
         rw [f2]
@@ -249,9 +248,9 @@ theorem Write_eq (w : RW) (p : List Nat) (hc : w.headerComplete = true) (hal : b
   simp only [RW.Write, hc, Bool.not_true, Bool.false_eq_true, ↓reduceIte, hal, hover, hh]
 
 /-- `Write(p)` on a live writer whose declared length is not exceeded -/
-theorem Write_fr (w : RW) (p acc : List Nat) (hl : Live w) (hf : Fr w acc) (hnw : w.numWritten = acc.length)
+theorem Write_fr (pre : List WriteRec) (w : RW) (p acc : List Nat) (hl : Live w) (hf : Fr pre w acc) (hnw : w.numWritten = acc.length)
     (hcl : w.contentLen = 0 ∨ acc.length + p.length ≤ w.contentLen) (hlen : (acc ++ p).length < 2 ^ 62) :
-    Live (w.Write p).1 ∧ Fr (w.Write p).1 (acc ++ p) ∧ (w.Write p).1.numWritten = (acc ++ p).length ∧
+    Live (w.Write p).1 ∧ Fr pre (w.Write p).1 (acc ++ p) ∧ (w.Write p).1.numWritten = (acc ++ p).length ∧
       (w.Write p).1.contentLen = w.contentLen ∧ (w.Write p).2.2 = none := by
   have hover : ¬ (w.contentLen ≠ 0 ∧ w.numWritten + p.length > w.contentLen) := by
     rw [hnw]; omega
@@ -266,15 +265,15 @@ theorem Write_fr (w : RW) (p acc : List Nat) (hl : Live w) (hf : Fr w acc) (hnw 
     · simp [f1] at hb
   · have hl2 : Live { w with numWritten := w.numWritten + p.length } :=
       ⟨hl.hc, hl.head, hl.allowed, hl.st, hl.cc, hl.np, hl.tw⟩
-    have hf2 : Fr { w with numWritten := w.numWritten + p.length } acc := hf
-    obtain ⟨d1, d2, d3, d4, d5, _⟩ := doWrite_fr _ p acc hl2 hf2 hlen
+    have hf2 : Fr pre { w with numWritten := w.numWritten + p.length } acc := hf
+    obtain ⟨d1, d2, d3, d4, d5, _⟩ := doWrite_fr pre _ p acc hl2 hf2 hlen
     refine ⟨d2, d3, ?_, d5, d1⟩
     rw [d4]; simp [hnw]
 
-theorem Flush_fr (w : RW) (acc : List Nat) (hl : Live w) (hf : Fr w acc) (hlen : acc.length < 2 ^ 62) :
-    Live w.Flush ∧ Fr w.Flush acc ∧ w.Flush.numWritten = w.numWritten ∧ w.Flush.contentLen = w.contentLen ∧
+theorem Flush_fr (pre : List WriteRec) (w : RW) (acc : List Nat) (hl : Live w) (hf : Fr pre w acc) (hlen : acc.length < 2 ^ 62) :
+    Live w.Flush ∧ Fr pre w.Flush acc ∧ w.Flush.numWritten = w.numWritten ∧ w.Flush.contentLen = w.contentLen ∧
       w.Flush.headerWritten = true := by
-  obtain ⟨d1, d2, d3, d4, d5, d6⟩ := doWrite_fr w [] acc hl hf (by simpa using hlen)
+  obtain ⟨d1, d2, d3, d4, d5, d6⟩ := doWrite_fr pre w [] acc hl hf (by simpa using hlen)
   simp only [RW.Flush, RW.FlushError, hl.hc, Bool.not_true, Bool.false_eq_true, ↓reduceIte]
   rcases hr : w.doWrite [] with ⟨w1, n, eo⟩
   rw [hr] at d1 d2 d3 d4 d5 d6
@@ -290,10 +289,10 @@ def payloads : List HOp → List (List Nat)
   | _ :: ops => payloads ops
 
 /-- any handler script on a live writer -/
-theorem ops_fr (ops : List HOp) : ∀ (w : RW) (acc : List Nat), Live w → Fr w acc → w.numWritten = acc.length →
+theorem ops_fr (pre : List WriteRec) (ops : List HOp) : ∀ (w : RW) (acc : List Nat), Live w → Fr pre w acc → w.numWritten = acc.length →
     (w.contentLen = 0 ∨ acc.length + (payloads ops).flatten.length ≤ w.contentLen) →
     acc.length + (payloads ops).flatten.length < 2 ^ 62 →
-    Live (ops.foldl applyOp w) ∧ Fr (ops.foldl applyOp w) (acc ++ (payloads ops).flatten) := by
+    Live (ops.foldl applyOp w) ∧ Fr pre (ops.foldl applyOp w) (acc ++ (payloads ops).flatten) := by
   induction ops with
   | nil => intro w acc hl hf _ _ _; simpa [payloads] using ⟨hl, hf⟩
   | cons op ops ih =>
@@ -309,13 +308,13 @@ theorem ops_fr (ops : List HOp) : ∀ (w : RW) (acc : List Nat), Live w → Fr w
       exact ih w acc hl hf hnw hcl hlen
     | write p =>
       simp only [payloads, List.flatten_cons, List.length_append] at hcl hlen ⊢
-      obtain ⟨a1, a2, a3, a4, _⟩ := Write_fr w p acc hl hf hnw (by omega) (by simp only [List.length_append]; omega)
+      obtain ⟨a1, a2, a3, a4, _⟩ := Write_fr pre w p acc hl hf hnw (by omega) (by simp only [List.length_append]; omega)
       have := ih (w.Write p).1 (acc ++ p) a1 a2 a3 (by rw [a4]; simp only [List.length_append]; omega)
         (by simp only [List.length_append]; omega)
       simpa [applyOp, List.append_assoc] using this
     | flush =>
       have hlen' : acc.length < 2 ^ 62 := by omega
-      obtain ⟨a1, a2, a3, a4, _⟩ := Flush_fr w acc hl hf hlen'
+      obtain ⟨a1, a2, a3, a4, _⟩ := Flush_fr pre w acc hl hf hlen'
       exact ih w.Flush acc a1 a2 (by rw [a3]; exact hnw) (by rw [a4]; exact hcl) hlen
 
 /-! ### end-of-request processing -/
@@ -351,14 +350,15 @@ theorem flushTrailers_live (w : RW) (hl : Live w) :
     · rw [logCall_id]; exact ⟨tl, h1, h2⟩
 
 /-- the records on the stream once the server has finished the request -/
-theorem finish_fr (w : RW) (acc : List Nat) (hl : Live w) (hf : Fr w acc) (hlen : acc.length < 2 ^ 62) :
-    ∃ (pre : List WriteRec) (hf : List (String × String)) (raws cs : List (List Nat)) (tl : List WriteRec), HdrOnly pre ∧ w.finish.str.writes = pre ++ .hdr hf :: raws.map .raw ++ tl ∧
+theorem finish_fr (pre : List WriteRec) (w : RW) (acc : List Nat) (hl : Live w) (hf : Fr pre w acc) (hlen : acc.length < 2 ^ 62) :
+    ∃ (hf : List (String × String)) (raws cs : List (List Nat)) (tl : List WriteRec),
+      w.finish.str.writes = pre ++ .hdr hf :: raws.map .raw ++ tl ∧
       (tl = [] ∨ ∃ tf, tl = [.hdr tf]) ∧ raws.flatten = encFrames (cs.map dataFrameOf) ∧ cs.flatten = acc ∧
       ∀ c ∈ cs, c.length < 2 ^ 62 := by
   unfold RW.finish
   dsimp only
-  have key : ∀ w0 : RW, Live w0 → Fr w0 acc →
-      ∃ (pre : List WriteRec) (hf : List (String × String)) (raws cs : List (List Nat)) (tl : List WriteRec), HdrOnly pre ∧
+  have key : ∀ w0 : RW, Live w0 → Fr pre w0 acc →
+      ∃ (hf : List (String × String)) (raws cs : List (List Nat)) (tl : List WriteRec),
         (if w0.Flush.panicked = true then w0.Flush
           else if w0.Flush.flushTrailers.panicked = true then w0.Flush.flushTrailers
           else { w0.Flush.flushTrailers with str := (w0.Flush.flushTrailers.str.cancelRead errNoError).close }).str.writes
@@ -366,11 +366,11 @@ theorem finish_fr (w : RW) (acc : List Nat) (hl : Live w) (hf : Fr w acc) (hlen 
         (tl = [] ∨ ∃ tf, tl = [.hdr tf]) ∧ raws.flatten = encFrames (cs.map dataFrameOf) ∧ cs.flatten = acc ∧
         ∀ c ∈ cs, c.length < 2 ^ 62 := by
     intro w0 hl0 hf0
-    obtain ⟨a1, a2, _, _, a5⟩ := Flush_fr w0 acc hl0 hf0 hlen
+    obtain ⟨a1, a2, _, _, a5⟩ := Flush_fr pre w0 acc hl0 hf0 hlen
     obtain ⟨tl, t1, t2⟩ := flushTrailers_live w0.Flush a1
-    rcases a2 with ⟨f1, _, _⟩ | ⟨_, _, pre, hf', raws, cs, g1, g2, g3, g4, g5⟩
+    rcases a2 with ⟨f1, _, _⟩ | ⟨_, _, hf', raws, cs, g2, g3, g4, g5⟩
     · rw [a5] at f1; cases f1
-    · refine ⟨pre, hf', raws, cs, tl, g1, ?_, t2, g3, g4, g5⟩
+    · refine ⟨hf', raws, cs, tl, ?_, t2, g3, g4, g5⟩
       simp only [a1.np, Bool.false_eq_true, ↓reduceIte]
       split
       · rw [t1, g2]
@@ -380,23 +380,112 @@ theorem finish_fr (w : RW) (acc : List Nat) (hl : Live w) (hf : Fr w acc) (hlen 
   · exact key _ ⟨hl.hc, hl.head, hl.allowed, hl.st, hl.cc, hl.np, hl.tw⟩ hf
   · exact key w hl hf
 
-/-- bytes of the raw records -/
-theorem sentBytes_shape (s : Str) (pre : List WriteRec) (hf : List (String × String)) (raws : List (List Nat))
-    (tl : List WriteRec) (hpre : HdrOnly pre) (htl : tl = [] ∨ ∃ tf, tl = [.hdr tf])
-    (h : s.writes = pre ++ .hdr hf :: raws.map .raw ++ tl) : sentBytes s = raws.flatten := by
-  have hp : (pre.map rawBytes).flatten = [] := by
-    apply List.flatten_eq_nil_iff.mpr
-    intro l hl
-    obtain ⟨x, hx, rfl⟩ := List.mem_map.mp hl
-    obtain ⟨f, rfl⟩ := hpre x hx
-    rfl
-  have ht : (tl.map rawBytes).flatten = [] := by
-    rcases htl with rfl | ⟨tf, rfl⟩ <;> rfl
-  have hr : ((raws.map WriteRec.raw).map rawBytes) = raws := by
-    rw [List.map_map]
-    conv => rhs; rw [← List.map_id raws]
-    rfl
-  simp only [sentBytes, h, List.map_append, List.map_cons, List.flatten_append, List.flatten_cons, hp, ht, hr, rawBytes,
-    List.nil_append, List.append_nil]
+/-! ### a writer whose final status has just been set -/
+
+/-- final status set, a body is allowed, nothing on the stream yet (no interim 1xx response either) -/
+structure Ready (w : RW) : Prop where
+  live : Live w
+  hw : w.headerWritten = false
+  small : w.small = []
+  nw : w.numWritten = 0
+  nowrites : w.str.writes = []
+
+theorem Ready.fr {w : RW} (h : Ready w) : Fr [] w [] := Or.inl ⟨h.hw, h.small, h.nowrites⟩
+
+/-- how a writer gets there: `WriteHeader(st)`, 200 ≤ st ≤ 999 and not 204 / 304, as the first thing a
+    handler does with the response writer of a non-HEAD request on a live stream -/
+theorem ready_established (w : RW) (st : Nat) (h0 : w.headerComplete = false) (hh : w.isHead = false)
+    (hw : w.headerWritten = false) (hs : w.small = []) (hn : w.numWritten = 0) (hwr : w.str.writes = [])
+    (hst : w.str.st = .ok) (hcc : w.str.m.p.cc = none) (hnp : w.panicked = false) (htw : w.trailerWritten = false)
+    (hr : 200 ≤ st ∧ st ≤ 999) (hal : bodyAllowedForStatus st = true) : Ready ((w.WriteHeader st).getD w) := by
+  have hr' : ¬ (st < 100 ∨ st > 999) := by omega
+  have h200 : ¬ st < 200 := by omega
+  simp only [RW.WriteHeader, h0, Bool.false_eq_true, ↓reduceIte, hr', h200]
+  split <;> (try split) <;> (try split) <;> exact ⟨⟨rfl, hh, hal, hst, hcc, hnp, htw⟩, hw, hs, hn, hwr⟩
+
+/-- every handler script on a ready writer, then the end of the request: HEADERS, DATA frames whose
+    payloads are the written bytes, at most one more HEADERS record -/
+theorem ready_run (w : RW) (ops : List HOp) (h : Ready w)
+    (hcl : w.contentLen = 0 ∨ (payloads ops).flatten.length ≤ w.contentLen)
+    (hlen : (payloads ops).flatten.length < 2 ^ 62) :
+    ∃ (hf : List (String × String)) (raws cs : List (List Nat)) (tl : List WriteRec),
+      ((ops.foldl applyOp w).finish).str.writes = .hdr hf :: raws.map .raw ++ tl ∧
+      (tl = [] ∨ ∃ tf, tl = [.hdr tf]) ∧ raws.flatten = encFrames (cs.map dataFrameOf) ∧
+      cs.flatten = (payloads ops).flatten ∧ ∀ c ∈ cs, c.length < 2 ^ 62 := by
+  obtain ⟨l1, f1⟩ := ops_fr [] ops w [] h.live h.fr (by rw [h.nw]; rfl) (by simpa using hcl) (by simpa using hlen)
+  simp only [List.nil_append] at f1
+  obtain ⟨hf, raws, cs, tl, e1, e2, e3, e4, e5⟩ := finish_fr [] _ _ l1 f1 hlen
+  exact ⟨hf, raws, cs, tl, by simpa using e1, e2, e3, e4, e5⟩
+
+/-! ### from write records to bytes -/
+
+/-- The bytes of the stream: every raw write as it is; the k-th HEADERS record as a HEADERS frame that
+    carries the k-th field section of `secs` (C18's record keeps the decoded field list, the section
+    bytes come from the field-section side). -/
+def layoutRecs : List WriteRec → List (List Nat) → List Nat
+  | [], _ => []
+  | .raw bs :: rs, secs => bs ++ layoutRecs rs secs
+  | .hdr _ :: rs, sec :: secs => (hdrFrameOf sec).enc ++ layoutRecs rs secs
+  | .hdr _ :: rs, [] => layoutRecs rs []
+
+/-- number of HEADERS records -/
+def hdrCount : List WriteRec → Nat
+  | [] => 0
+  | .raw _ :: rs => hdrCount rs
+  | .hdr _ :: rs => hdrCount rs + 1
+
+theorem layoutRecs_raws (raws : List (List Nat)) (rest : List WriteRec) (secs : List (List Nat)) :
+    layoutRecs (raws.map .raw ++ rest) secs = raws.flatten ++ layoutRecs rest secs := by
+  induction raws with
+  | nil => rfl
+  | cons r raws ih => simp [layoutRecs, ih, List.append_assoc]
+
+theorem hdrCount_raws (raws : List (List Nat)) (rest : List WriteRec) :
+    hdrCount (raws.map .raw ++ rest) = hdrCount rest := by
+  induction raws with
+  | nil => rfl
+  | cons r raws ih => simpa [hdrCount] using ih
+
+/-- HEADERS, raw writes, at most one more HEADERS — laid out with one section per HEADERS record -/
+theorem layout_shape (hf : List (String × String)) (raws : List (List Nat)) (tl : List WriteRec)
+    (htl : tl = [] ∨ ∃ tf, tl = [.hdr tf]) (hsec : List Nat) (tsec : Option (List Nat))
+    (hcount : hdrCount (.hdr hf :: raws.map .raw ++ tl) = (hsec :: tsec.toList).length) :
+    layoutRecs (.hdr hf :: raws.map .raw ++ tl) (hsec :: tsec.toList) =
+      (hdrFrameOf hsec).enc ++ raws.flatten ++ encFrames (tsec.map hdrFrameOf).toList := by
+  simp only [List.cons_append, layoutRecs, layoutRecs_raws, hdrCount, hdrCount_raws, List.length_cons] at hcount ⊢
+  rcases htl with rfl | ⟨tf, rfl⟩
+  · cases tsec with
+    | none => simp [layoutRecs, encFrames]
+    | some t => simp [hdrCount] at hcount
+  · cases tsec with
+    | none => simp [hdrCount] at hcount
+    | some t => simp [layoutRecs, encFrames, List.append_assoc]
+
+/-- only HEADERS records (no body byte was written) -/
+theorem layout_hdrs_only (recs : List WriteRec) (hraw : ∀ x ∈ recs, ∃ f, x = .hdr f) :
+    ∀ secs : List (List Nat), hdrCount recs = secs.length → layoutRecs recs secs = encFrames (secs.map hdrFrameOf) := by
+  induction recs with
+  | nil => intro secs h; cases secs with
+    | nil => rfl
+    | cons _ _ => simp [hdrCount] at h
+  | cons x recs ih =>
+    intro secs h
+    obtain ⟨f, rfl⟩ := hraw x (by simp)
+    cases secs with
+    | nil => simp [hdrCount] at h
+    | cons sec secs =>
+      simp only [hdrCount, List.length_cons, Nat.add_right_cancel_iff] at h
+      simp only [layoutRecs, List.map_cons, encFrames]
+      rw [ih (fun y hy => hraw y (by simp [hy])) secs h]
+
+theorem rawOf_nil_hdrs (s : Str) (h : rawOf s = []) : ∀ x ∈ s.writes, ∃ f, x = .hdr f := by
+  intro x hx
+  cases x with
+  | hdr f => exact ⟨f, rfl⟩
+  | raw bs =>
+    have : bs ∈ rawOf s := by
+      simp only [rawOf, List.mem_filterMap]
+      exact ⟨.raw bs, hx, rfl⟩
+    rw [h] at this; cases this
 
 end Uquic.Proofs.H3Msg
